@@ -22,7 +22,7 @@ RULE = ("cases: general trees (windows, failures, aborts, nesting; AbstractJob s
         "or a cancelled job, together with a finished one; distinct = distinct scenario digest")
 ASSUMPTIONS = RT_ASSUMPTIONS
 
-PROFILE = S.GENERAL.but(p_coroutine=50, p_raise=22, p_critical=30, p_nested=24,
+PROFILE = S.GENERAL.but(p_block=6, p_coroutine=50, p_raise=22, p_critical=30, p_nested=24,
                         windows=((None, 3), (0, 1), (1, 3), (2, 3), (3, 1)),
                         p_wild=25, p_forever=14)
 
